@@ -106,11 +106,12 @@ Section OpenInv.
     destruct (negb (forallb (validate_record (sfields s)) (e_recs e))); [split; [exact T0 | reflexivity]|].
     destruct (create_arrow_schema (cache_of w1 (e_handle e)) s) as [a1 c1] eqn:CA1.
     destruct (create_arrow_schema (cache_of w2 (e_handle e)) s) as [a2 c2] eqn:CA2.
-    destruct (create_ok ts _ _ _ _ (cache_of_ok conv ts w1 (e_handle e) I1) F CA1) as [E1 _].
-    destruct (create_ok ts _ _ _ _ (cache_of_ok conv ts w2 (e_handle e) I2) F CA2) as [E2 _]. subst a1 a2.
+    destruct (create_ok ts _ _ _ _ (cache_of_ok conv ts w1 (e_handle e) I1) F CA1) as [E1 K1].
+    destruct (create_ok ts _ _ _ _ (cache_of_ok conv ts w2 (e_handle e) I2) F CA2) as [E2 K2]. subst a1 a2.
     destruct (convert conv (arrow_of (sfields ts)) (e_recs e)) as [rows|]; [|split; [exact T0 | reflexivity]].
     destruct (bounds_for (sfields s) (arrow_of (sfields ts)) rows) as [lo hi].
-    destruct (e_commit_ok e); unfold table_of, current; simpl; rewrite Hs, Hn, Hst, Hx; split; reflexivity.
+    destruct (recheck_ok ts c1 K1) as [d1 [R1 _]]. destruct (recheck_ok ts c2 K2) as [d2 [R2 _]]. rewrite R1, R2.
+    destruct (true && e_commit_ok e); unfold table_of, current; simpl; rewrite Hs, Hn, Hst, Hx; split; reflexivity.
   Qed.
 
   Lemma hrun_inv xs : forall w, Inv conv ts w -> Inv conv ts (hrun conv w xs).
